@@ -1220,6 +1220,15 @@ func (p *Parser) relocateNamedObjects(objIndex uint32) parseResult {
 					return parseResultFailed
 				}
 			}
+
+			// Relocating an object into its own sub-tree would create a cycle
+			for ancestorIndex := targetObj.index; ancestorIndex != InvalidIndex; ancestorIndex = p.objTree.ObjectAt(ancestorIndex).parentIndex {
+				if ancestorIndex == obj.index {
+					kfmt.Fprintf(p.errWriter, "[table: %s, offset: 0x%x] relocation path \"%s\" resolved to a descendant of the relocated object\n", p.tableName, obj.amlOffset, namepath[:])
+					return parseResultFailed
+				}
+			}
+
 			p.objTree.detach(p.objTree.ObjectAt(obj.parentIndex), obj)
 			p.objTree.append(targetObj, obj)
 			p.objTree.ObjectAt(obj.firstArgIndex).value = namepath[nameIndex:]
